@@ -283,6 +283,12 @@ def main(argv=None):
         if cov['generator_errors']['count']:
             log('note: %d schedules ended early on a generator error (%s)' % (
                 cov['generator_errors']['count'], cov['generator_errors']['first'][0]))
+        if unknown and rc == 2:
+            # a reported violation (with its replay file) outranks harness trouble
+            # met in the same batch: exit 1, and say so
+            log('note: harness errors occurred in this batch as well (see above); '
+                'the reported violation decides the exit status')
+            rc = 1
         if rc == 2:
             log('HARNESS-ERROR: result not trustworthy (exit 2)')
     finally:
